@@ -384,21 +384,30 @@ class ConcreteCtx:
         self.used_default = []
         self.value_log = []
 
-    def _get(self, name, default):
+    def _get(self, name, default, lo=None, hi=None, kind='real'):
         if name in self.model:
             return self.model[name]
         self.used_default.append(name)
+        if self.opts.get('auto_fill') and kind in ('real', 'int'):
+            # deterministic pseudo-random value inside the box (translator-validation points)
+            import zlib
+
+            h = zlib.crc32((name + '|' + str(self.opts.get('auto_fill'))).encode()) / 0xFFFFFFFF
+            a = -2.0 if lo is None else float(lo)
+            b = 2.0 if hi is None else float(hi)
+            v = a + (b - a) * h
+            return round(v) if kind == 'int' else round(v, 3)
         return default
 
     def real(self, name, lo=None, hi=None):
         d = 0.0 if (lo is None or lo <= 0) and (hi is None or hi >= 0) else (lo if lo is not None else hi)
-        v = float(self._get(name, d))
+        v = float(self._get(name, d, lo, hi, 'real'))
         self.vars[name] = {'kind': 'real', 'value': v}
         return v
 
     def int(self, name, lo=None, hi=None):
         d = 0 if (lo is None or lo <= 0) and (hi is None or hi >= 0) else (lo if lo is not None else hi)
-        v = int(self._get(name, d))
+        v = int(self._get(name, d, lo, hi, 'int'))
         self.vars[name] = {'kind': 'int', 'value': v}
         return v
 
